@@ -46,12 +46,13 @@ class Explorer:
         self.n = 0
         self.executions = 0
 
-    def run_history(self, hist):
+    def run_history(self, hist, warm=True):
         """returns list of (call_json, canonical_digest) per step, plus raw result"""
         self.n += 1
         w = os.path.join(self.root, 'h%06d' % self.n)   # fixed-length names: the work dir may appear in records (cwd)
         lines = ['syms ' + self.symfile] + list(self.prelude) + ['digest init']
-        if self.warmup:
+        use_warm = bool(self.warmup) and warm
+        if use_warm:
             lines += list(self.warmup) + ['digest warm']
         for a in hist:
             lines += list(self.letters[a]) + ['digest ' + a]
@@ -60,7 +61,7 @@ class Explorer:
         r = H.run_script(self.h, w, script, env_extra=dict(self.env_extra, VERIF_HEXMAX='70000'), timeout=120, noaslr=True)
         ds = [l for l in r['lines'] if 'digest' in l]
         calls = [l for l in r['lines'] if 'call' in l]
-        if self.warmup:
+        if use_warm:
             calls = calls[1:]
             base = ds[1:] if len(ds) > 1 else []
         else:
